@@ -13,6 +13,8 @@ pub mod c11;
 pub mod c12;
 pub mod c13;
 pub mod c14;
+pub mod c15;
+pub mod c16;
 pub mod c18;
 pub mod c19;
 pub mod c20;
@@ -33,6 +35,8 @@ pub fn run(prop: &str, tier: Tier, seed: u64) {
         "C12" => c12::run(tier, seed),
         "C13" => c13::run(tier, seed),
         "C14" => c14::run(tier, seed),
+        "C15" => c15::run(tier, seed),
+        "C16" => c16::run(tier, seed),
         "C18" => c18::run(tier, seed),
         "C19" => c19::run(tier, seed),
         "C20" => c20::run(tier, seed),
